@@ -535,13 +535,16 @@ async fn remote<P: Protocol>(
         client_id = format!("{tenant_id}.{client_id}");
     }
 
-    if let Some(sender) = will_handlers.lock().unwrap().remove(&client_id) {
+    // the guard must not be alive while the previous connection is notified
+    let previous = will_handlers.lock().unwrap().remove(&client_id);
+    if let Some(sender) = previous {
         let awaiting_will = if clean_session {
             AwaitingWill::Fire
         } else {
             AwaitingWill::Cancel
         };
-        sender.try_send(awaiting_will).unwrap();
+        // the previous connection's task may have returned already
+        sender.try_send(awaiting_will).ok();
     }
 
     let (will_tx, will_rx) = flume::bounded::<AwaitingWill>(1);
@@ -564,6 +567,8 @@ async fn remote<P: Protocol>(
         Ok(l) => l,
         Err(e) => {
             error!(error=?e, "Remote link error");
+            // the router refused the connection: nobody will wait on `will_rx`
+            will_handlers.lock().unwrap().remove(&client_id);
             return;
         }
     };
